@@ -62,14 +62,14 @@ def run(ctx):
     rng = random.Random(ctx.seed)
     for i in rng.sample(range(len(cases)), 4):
         ctx.sample({"kind": cases[i]["kind"], "shape": cases[i]["shape"]})
-    vs = ctx.run_cases(binary, "codec", cases, timeout_ms=30000)
+    vs = ctx.run_cases(binary, "codec", cases, timeout_ms=120000)
     _register(ctx, vs, cases)
     ctx.traces_validated = len(cases)      # behaviours (encode/decode of one shape) replayed on the implementation
 
     # binding self-test: falsify the expectation of a few cases; the adapter must reject every one of them
     probe = [dict(cases[i], id=n, corrupt=True) for n, i in enumerate(
         [next(j for j, c in enumerate(cases) if c["kind"] == k and c["shape"]) for k in ("refs", "bits", "relation", "plh")])]
-    pv = ctx.run_cases(binary, "codec", probe, timeout_ms=30000, name="selftest")
+    pv = ctx.run_cases(binary, "codec", probe, timeout_ms=120000, name="selftest")
     if any(v.get("ok") for v in pv):
         raise Inconclusive("binding self-test failed: a corrupted expectation was accepted")
     ctx.extra_cov["selftest_corrupted_cases_rejected"] = len(pv)
@@ -98,6 +98,6 @@ def run(ctx):
 def replay(ctx, rep):
     case = rep["replay"]["case"]
     binary = ctx.go_build("vh-codec")
-    vs = ctx.run_cases(binary, "codec", [dict(case, id=0)], timeout_ms=30000)
+    vs = ctx.run_cases(binary, "codec", [dict(case, id=0)], timeout_ms=120000)
     _register(ctx, vs, [case])
     return ctx.finish("exploration", rule="replay of one recorded case", exhaustive=False)
